@@ -1056,6 +1056,82 @@ func (c *Ctx) delAllQueued(rule string) {
 	}
 }
 
+// secretEntropy: every secret the library mints (confirm/recover tokens,
+// remember tokens, one-time passwords, recovery codes, SMS codes, e-mail
+// authorisation tokens, the OAuth2 state) is drawn from crypto/rand, with the
+// read checked: each io.ReadFull / Read that fills a buffer in a package that
+// mints secrets names crypto/rand.Reader, its error is handed back (a short
+// or failed read must not leave a predictable buffer in use), and math/rand is
+// used nowhere but for the MIME boundary of the SMTP mailer.
+func (c *Ctx) secretEntropy(rule string) {
+	r := c.R
+	n := 0
+	for _, fn := range c.P.Funcs {
+		if strings.HasSuffix(pkgOf(fn), "/mocks") {
+			continue
+		}
+		name := FuncName(fn)
+		for _, call := range Calls(fn) {
+			cn := Callee(call)
+			if strings.HasPrefix(cn, "math/rand.") || strings.HasPrefix(cn, "(*math/rand.Rand).") || strings.HasPrefix(cn, "math/rand/v2.") {
+				ok := pkgOf(fn) == "ab/defaults" && strings.Contains(name, "SMTPMailer")
+				r.Check(ok, rule, name, cn, posf(c, call), "math/rand only for the MIME boundary", "math/rand is used outside the SMTP mailer's MIME boundary: values drawn from it are predictable and must not become tokens, codes or nonces")
+				continue
+			}
+			var reader ssa.Value
+			switch {
+			case cn == "io.ReadFull" || cn == "io.ReadAtLeast":
+				reader = Arg(call, 0)
+			case cn == "crypto/rand.Read":
+				n++
+				k, _ := c.errHandling(call)
+				okE := k == "returned"
+				if k == "tested" {
+					okE, _ = c.errPropagated(call)
+				}
+				r.Check(okE, rule, name, "rand.Read.err", posf(c, call), "a failed read ends the operation", "the error of the entropy read is not handed back: a buffer that was not filled would be used as a secret")
+				continue
+			case call.Common().IsInvoke() && call.Common().Method.Name() == "Read" && strings.HasSuffix(call.Common().Value.Type().String(), "io.Reader"):
+				reader = call.Common().Value
+			default:
+				continue
+			}
+			for {
+				if mi, ok := reader.(*ssa.MakeInterface); ok {
+					reader = mi.X
+					continue
+				}
+				if ci, ok := reader.(*ssa.ChangeInterface); ok {
+					reader = ci.X
+					continue
+				}
+				break
+			}
+			g := loadOfGlobal(reader)
+			if g == nil || g.Pkg == nil {
+				continue // reading a body, a file: not an entropy source
+			}
+			if g.Pkg.Pkg.Path() != "crypto/rand" && !strings.Contains(g.Pkg.Pkg.Path(), "/rand") {
+				continue
+			}
+			n++
+			r.Check(g.Pkg.Pkg.Path() == "crypto/rand" && g.Name() == "Reader", rule, name, "entropy source", posf(c, call), "crypto/rand.Reader", "the secret is not drawn from crypto/rand.Reader but from "+g.Pkg.Pkg.Path()+"."+g.Name())
+			if strings.HasPrefix(cn, "io.Read") {
+				k, _ := c.errHandling(call)
+				okE := k == "returned"
+				why := "error is " + k
+				if k == "tested" {
+					okE, why = c.errPropagated(call)
+				}
+				r.Check(okE, rule, name, "ReadFull.err", posf(c, call), "a failed read ends the operation", "the error of the entropy read is not handed back ("+why+"): a buffer that was not (completely) filled would be used as a secret")
+			} else {
+				r.Bad(rule, name, "Reader.Read", posf(c, call), "the buffer is filled with a bare Read, which may return fewer bytes than asked for: use io.ReadFull")
+			}
+		}
+	}
+	r.Check(n >= 8, rule, "all packages", "entropy reads", "-", sprintf("%d reads of crypto/rand", n), sprintf("expected at least 8 reads of crypto/rand in the packages that mint secrets, found %d", n))
+}
+
 // refusalConfigMapped: every module that protects its routes with the
 // authentication middleware passes, as the refusal mode, what the
 // configuration says: Modules.ResponseOnUnauthed when it is set, otherwise a
